@@ -3,10 +3,12 @@
     FindByName / RangeByName / ApplyClientFiltering), persistent.go
     (validate, subnetCompare), aghalg.SortedMap.  No proofs here.
 
-    Strings, ClientIDs, MACs are byte lists; an address is the byte list Go's
-    [netip.Addr.AsSlice] gives (4 or 16 bytes; [[]] is the invalid zero Addr);
-    a prefix is (address bytes as parsed, NOT masked; bit count).  Zones are not
-    modelled.  UIDs are numbers (the harness numbers the UUIDs it sees from 1;
+    Strings, ClientIDs, MACs are byte lists; an address is the pair of the byte
+    list Go's [netip.Addr.AsSlice] gives (4 or 16 bytes; [[]] for the invalid
+    zero Addr) and its IPv6 zone ([[]]: none); the exact-address map is keyed by
+    the whole pair, as Go's map[netip.Addr] is.  A prefix is (address bytes as
+    parsed, NOT masked; bit count); prefixes have no zones (netip.ParsePrefix
+    rejects them).  UIDs are numbers (the harness numbers the UUIDs it sees from 1;
     0 is the zero UID).  Go maps are association lists without duplicate keys;
     the sorted subnet map is an association list kept in [subnet_compare]
     order (keys slice and value map of aghalg.SortedMap fused). *)
@@ -14,7 +16,8 @@ From AGH Require Import Base.Run.
 Local Open Scope N_scope.
 
 Definition uid := N.
-Definition addr := bytes.
+Definition addr := (bytes * bytes)%type.
+Definition addr_eqb (a b : addr) : bool := eqb_bytes (fst a) (fst b) && eqb_bytes (snd a) (snd b).
 Definition prefix := (bytes * N)%type.
 
 Record client := {
@@ -66,8 +69,8 @@ Fixpoint cmp_bytes (a b : bytes) : comparison :=
   | x :: a', y :: b' => match N.compare x y with Eq => cmp_bytes a' b' | c => c end
   end.
 
-(** BitLen first (IPv4 before IPv6), then the value. *)
-Definition addr_compare (a b : addr) : comparison :=
+(** BitLen first (IPv4 before IPv6), then the value (prefix addresses: no zone). *)
+Definition addr_compare (a b : bytes) : comparison :=
   match Nat.compare (length a) (length b) with Eq => cmp_bytes a b | c => c end.
 
 (** Longer prefix first, then by address. *)
@@ -100,7 +103,7 @@ Fixpoint take_bits (n : N) (l : bytes) : bytes :=
       if n <? 8 then [b / 2 ^ (8 - n)] else b :: take_bits (n - 8) l'
   end.
 
-Definition contains (p : prefix) (ip : addr) : bool :=
+Definition contains (p : prefix) (ip : bytes) : bool :=
   Nat.eqb (length (fst p)) (length ip) && negb (Nat.eqb (length ip) 0) &&
   eqb_bytes (take_bits (snd p) (fst p)) (take_bits (snd p) ip).
 
@@ -120,6 +123,9 @@ Definition empty_index : index :=
 Definition bget {V} := @al_get bytes V eqb_bytes.
 Definition bset {V} := @al_set bytes V eqb_bytes.
 Definition bdel {V} := @al_del bytes V eqb_bytes.
+Definition zget {V} := @al_get addr V addr_eqb.
+Definition zset {V} := @al_set addr V addr_eqb.
+Definition zdel {V} := @al_del addr V addr_eqb.
 
 Definition add_keys {K M} (set : K -> uid -> M -> M) (ks : list K) (u : uid) (m : M) : M :=
   fold_left (fun m k => set k u m) ks m.
@@ -140,7 +146,7 @@ Fixpoint clash_key {K M} (get : K -> M -> option uid) (ks : list K) (u : uid) (m
 Definition index_add (c : client) (ix : index) : index :=
   {| name_to := bset (c_name c) (c_uid c) (name_to ix);
      cid_to := add_keys bset (c_cids c) (c_uid c) (cid_to ix);
-     ip_to := add_keys bset (c_ips c) (c_uid c) (ip_to ix);
+     ip_to := add_keys zset (c_ips c) (c_uid c) (ip_to ix);
      subnet_to := add_keys sm_set (c_subnets c) (c_uid c) (subnet_to ix);
      mac_to := add_keys bset (c_macs c) (c_uid c) (mac_to ix);
      by_uid := al_set N.eqb (c_uid c) c (by_uid ix) |}.
@@ -149,7 +155,7 @@ Definition index_add (c : client) (ix : index) : index :=
 Definition index_remove (c : client) (ix : index) : index :=
   {| name_to := bdel (c_name c) (name_to ix);
      cid_to := del_keys bdel (c_cids c) (cid_to ix);
-     ip_to := del_keys bdel (c_ips c) (ip_to ix);
+     ip_to := del_keys zdel (c_ips c) (ip_to ix);
      subnet_to := del_keys sm_del (c_subnets c) (subnet_to ix);
      mac_to := del_keys bdel (c_macs c) (mac_to ix);
      by_uid := al_del N.eqb (c_uid c) (by_uid ix) |}.
@@ -161,7 +167,7 @@ Inductive err :=
 Definition clashes (c : client) (ix : index) : err :=
   match clash_key bget [c_name c] (c_uid c) (name_to ix) with Some _ => EName | None =>
   match clash_key bget (c_cids c) (c_uid c) (cid_to ix) with Some _ => ECid | None =>
-  match clash_key bget (c_ips c) (c_uid c) (ip_to ix) with Some _ => EIP | None =>
+  match clash_key zget (c_ips c) (c_uid c) (ip_to ix) with Some _ => EIP | None =>
   match clash_key sm_get (c_subnets c) (c_uid c) (subnet_to ix) with Some _ => ESubnet | None =>
   match clash_key bget (c_macs c) (c_uid c) (mac_to ix) with Some _ => EMac | None =>
   EOk end end end end end.
@@ -235,12 +241,13 @@ Definition find_by_name (ix : index) (n : bytes) : option uid := bget n (name_to
 Definition find_by_cid (ix : index) (id : bytes) : option uid := bget id (cid_to ix).
 Definition find_by_mac (ix : index) (m : bytes) : option uid := bget m (mac_to ix).
 
-(** index.findByIP: exact, then the first containing prefix in stored order. *)
+(** index.findByIP: exact (zone included), then the first containing prefix in
+    stored order, the zone stripped. *)
 Definition find_by_ip (ix : index) (ip : addr) : option uid :=
-  match bget ip (ip_to ix) with
+  match zget ip (ip_to ix) with
   | Some u => Some u
   | None =>
-      match List.find (fun pu => contains (fst pu) ip) (subnet_to ix) with
+      match List.find (fun pu => contains (fst pu) (fst ip)) (subnet_to ix) with
       | Some (_, u) => Some u
       | None => None
       end
